@@ -862,6 +862,74 @@ func genTowns(r *vproto.Rng) *netCase {
 	return b.c
 }
 
+// genGapNet: link end vertices that are only NEAR their node (inside op.PointEquals' relative tolerance, integers at
+// magnitudes ~1e9 so that every float operation on lengths and totals is exact): S--M, M'--T with M' = M + g2 towards T,
+// and a direct link S'--T with S' = S + g3, g3 < g2: the chain over M costs 2L - g2, the direct link 2L - g3.  An
+// unscaled straight-line heuristic overestimates at M by g2 and A* returns the direct link (the former finding
+// "identification gaps"); which vertex defines the node depends on the (shuffled) order of the AddLink calls.  Both
+// options, either axis, either sign, optional spurs.
+func genGapNet(r *vproto.Rng) *netCase {
+	opt := "D"
+	if r.Bool() {
+		opt = "T"
+	}
+	c := &netCase{fam: "gapnet", exact: true, opt: opt}
+	O := []float64{1e9, 1 << 30, 3e9}[r.Intn(3)]
+	L := O
+	if r.Bool() {
+		L = O / 2
+	}
+	g2 := float64(r.Range(2, int(math.Max(2, math.Floor(1.2e-9*(O+L))))))
+	g3 := float64(r.Range(0, int(math.Min(g2-1, math.Floor(1.2e-9*O)))))
+	sp := math.Ldexp(1, r.Range(-4, 4))
+	S, M, T := pt(O, O), pt(O+L, O), pt(O+2*L, O)
+	c.links = []link{
+		{[]geom.Point{S, M}, sp},
+		{[]geom.Point{pt(M.X+g2, M.Y), T}, sp},
+		{[]geom.Point{pt(S.X+g3, S.Y), T}, sp},
+	}
+	if r.Bool() { // spur at M, exact vertex
+		c.links = append(c.links, link{[]geom.Point{M, pt(M.X, M.Y-L)}, sp})
+	}
+	if r.Bool() { // a second chain on the other side with a gap at its middle node as well
+		M2 := pt(O+L, O+L)
+		c.links = append(c.links, link{[]geom.Point{S, pt(S.X, S.Y+L), M2}, sp},
+			link{[]geom.Point{pt(M2.X+g2, M2.Y), pt(T.X, T.Y+L), T}, sp})
+	}
+	for i := range c.links { // random orientation
+		if r.Bool() {
+			p := c.links[i].pts
+			for a, b := 0, len(p)-1; a < b; a, b = a+1, b-1 {
+				p[a], p[b] = p[b], p[a]
+			}
+		}
+	}
+	for i := len(c.links) - 1; i > 0; i-- {
+		j := r.Intn(i + 1)
+		c.links[i], c.links[j] = c.links[j], c.links[i]
+	}
+	c.qs = []query{{S, T, -1}, {T, S, -1}, {M, T, -1}, {S, M, -1}}
+	swap, neg := r.Bool(), r.Bool()
+	tr := func(p geom.Point) geom.Point {
+		if swap {
+			p.X, p.Y = p.Y, p.X
+		}
+		if neg {
+			p.X, p.Y = -p.X, -p.Y
+		}
+		return p
+	}
+	for i := range c.links {
+		for k := range c.links[i].pts {
+			c.links[i].pts[k] = tr(c.links[i].pts[k])
+		}
+	}
+	for i := range c.qs {
+		c.qs[i].from, c.qs[i].to = tr(c.qs[i].from), tr(c.qs[i].to)
+	}
+	return c
+}
+
 func corpus() []*netCase {
 	mk := func(fam, opt string, exact bool, links []link, qs ...query) *netCase {
 		return &netCase{fam: fam, exact: exact, opt: opt, links: links, qs: qs}
@@ -902,6 +970,18 @@ func corpus() []*netCase {
 			{[]geom.Point{pt(2e9+2, 1e9), pt(3e9, 1e9)}, 1},
 			{[]geom.Point{pt(1e9+1, 1e9), pt(3e9, 1e9)}, 1}},
 			query{pt(1e9, 1e9), pt(3e9, 1e9), -1}),
+		// the same under the Time option (mutation N10: only the Distance heuristic scaled)
+		mk("gap", "T", true, []link{
+			{[]geom.Point{pt(1e9, 1e9), pt(2e9, 1e9)}, 2},
+			{[]geom.Point{pt(2e9+2, 1e9), pt(3e9, 1e9)}, 2},
+			{[]geom.Point{pt(1e9+1, 1e9), pt(3e9, 1e9)}, 2}},
+			query{pt(1e9, 1e9), pt(3e9, 1e9), -1}),
+		// the link with the smaller gap first (mutation N1: only the first gap lowers the scale), asked before and after
+		mk("gap", "D", true, []link{
+			{[]geom.Point{pt(1e9, 1e9), pt(2e9, 1e9)}, 1},
+			{[]geom.Point{pt(1e9+1, 1e9), pt(3e9, 1e9)}, 1},
+			{[]geom.Point{pt(2e9+2, 1e9), pt(3e9, 1e9)}, 1}},
+			query{pt(1e9, 1e9), pt(3e9, 1e9), 2}, query{pt(1e9, 1e9), pt(3e9, 1e9), -1}),
 		// Web-Mercator magnitudes, the second short link starts 2 ulps off the junction B
 		mk("junction", "D", false, []link{
 			{[]geom.Point{pt(-10380000, 5610000), pt(-10379000, 5610000)}, 10},
@@ -944,6 +1024,7 @@ func gen(seed uint64, tier string) {
 		emit(genHistory(r), 0)
 		fmt.Fprintln(out, genOffset(r))
 		emit(genJunction(r), 0.3)
+		fmt.Fprintln(out, genGapNet(r)) // no earlier-moment queries: with a node missing, a query point at ~1e9 can be float-tied between far nodes
 		if i%2 == 0 {
 			emit(genGrid(r, "components", r.Range(2, 3)), 0.6)
 			emit(genFloat(r, true), 0.3)
